@@ -1,4 +1,5 @@
 import VermouthProofs.C01_Finish
+import VermouthProofs.Iso
 /-!
 # C01 — resolution transformation conserves atoms, residues and connectivity
 
@@ -273,5 +274,116 @@ theorem weights_source (ps : List Placement) (a k : Int) (w : Rat)
     refine ⟨pre, p, post, hsplit, ?_⟩
     have hs := weightEntries_isSome ps pre p post hsplit hok
     exact (mem_stepEntries _ p a k w hs).2 he
+
+/-! ## no atom vanishes silently; overlapping placements are reported -/
+
+/-- `no_silent_loss`: every non-hydrogen atom of the input either has an entry in the
+correspondence table (it contributes to a particle `k` with the weight `w` its placement assigns;
+by `weights_exact` that entry is in the particle's weight table) or the unmapped-atom warning
+is raised. -/
+theorem no_silent_loss (m : MolIn) (ps : List Placement) (r : Result) (h : assemble m ps = .ok r)
+    (a : Int) (ha : a ∈ m.keys) (hH : isHyd m a = false) :
+    (∃ k w, (a, k, w) ∈ logSpec Off.zero (order ps)) ∨ r.warn.unmapped = true := by
+  obtain ⟨hok, rfl⟩ := assemble_ok m ps r h
+  by_cases hd : a ∈ dom (placeAll (order ps)).molToOut
+  · left
+    rw [(placeAll_spec _ hok).2.1, mem_dom_addEntries] at hd
+    rcases hd with hd | ⟨e, he, rfl⟩
+    · cases hd
+    · exact ⟨e.2.1, e.2.2, he⟩
+  · right
+    unfold finish
+    simp only [List.any_eq_true]
+    refine ⟨a, ?_, by simp [hH]⟩
+    unfold uncovered
+    simp only [List.mem_filter]
+    exact ⟨ha, by simpa using hd⟩
+
+/-- … and a hydrogen that contributes to nothing is at least logged at debug level -/
+theorem hydrogens_logged (m : MolIn) (ps : List Placement) (r : Result) (h : assemble m ps = .ok r)
+    (a : Int) (ha : a ∈ m.keys) (hH : isHyd m a = true) :
+    (∃ k w, (a, k, w) ∈ logSpec Off.zero (order ps)) ∨ r.warn.hydrogens = true := by
+  obtain ⟨hok, rfl⟩ := assemble_ok m ps r h
+  by_cases hd : a ∈ dom (placeAll (order ps)).molToOut
+  · left
+    rw [(placeAll_spec _ hok).2.1, mem_dom_addEntries] at hd
+    rcases hd with hd | ⟨e, he, rfl⟩
+    · cases hd
+    · exact ⟨e.2.1, e.2.2, he⟩
+  · right
+    unfold finish
+    simp only [List.any_eq_true]
+    refine ⟨a, ?_, hH⟩
+    unfold uncovered
+    simp only [List.mem_filter]
+    exact ⟨ha, by simpa using hd⟩
+
+/-- `overlap_warned`: two placements that share an atom raise the inconsistent-data warning,
+provided the shared atom contributes to something in the earlier one (it has a weight entry there,
+or that block has a particle nothing maps to). -/
+theorem overlap_warned (m : MolIn) (ps : List Placement) (r : Result) (h : assemble m ps = .ok r)
+    (pre mid post : List Placement) (p q : Placement)
+    (hsplit : order ps = pre ++ p :: (mid ++ q :: post))
+    (a : Int) (hq : a ∈ q.atoms)
+    (hcov : (∃ ws blk w, (a, ws) ∈ p.molToBlock ∧ (blk, w) ∈ ws)
+            ∨ (a ∈ p.atoms ∧ stepSpawned (Off.zero.after pre) p ≠ [])) :
+    r.warn.overlap = true := by
+  obtain ⟨hok, rfl⟩ := assemble_ok m ps r h
+  -- `a` has an entry once `p` is placed
+  have hs := weightEntries_isSome ps pre p _ hsplit hok
+  have hentry : ∃ k w, (a, k, w) ∈ stepEntries (Off.zero.after pre) p := by
+    rcases hcov with ⟨ws, blk, w, h1, h2⟩ | ⟨h1, h2⟩
+    · cases hw : weightEntries p.block.keys ((Off.zero.after pre).n : Int) p.molToBlock with
+      | none => rw [hw] at hs; cases hs
+      | some wes =>
+        have hw' := hw
+        unfold weightEntries at hw'
+        obtain ⟨y, _, hfy⟩ := (mapM_some_mem _ _ _ hw').2 (a, blk, w) (by
+          simp only [List.mem_flatMap, List.mem_map]
+          exact ⟨(a, ws), h1, (blk, w), h2, rfl⟩)
+        cases hc : corrOf p.block.keys ((Off.zero.after pre).n : Int) blk with
+        | none => simp [hc] at hfy
+        | some k => exact ⟨k, w, (mem_stepEntries _ p a k w hs).2 (Or.inl ⟨ws, blk, h1, h2, hc⟩)⟩
+    · obtain ⟨k, hk⟩ := List.exists_mem_of_ne_nil _ h2
+      exact ⟨k, 0, (mem_stepEntries _ p a k 0 hs).2 (Or.inr ⟨hk, h1, rfl⟩)⟩
+  obtain ⟨k, w, he⟩ := hentry
+  -- state just before `q`
+  have hsplit2 : order ps = (pre ++ p :: mid) ++ q :: post := by rw [hsplit]; simp
+  obtain ⟨hpre, hinv, hstep⟩ := step_of_split _ _ post q hsplit2 hok
+  have hdom : a ∈ dom ((pre ++ p :: mid).foldl applyBlock {}).molToOut := by
+    rw [(fold_spec _ {} Off.zero inv_empty rfl hpre).2.2.1, mem_dom_addEntries]
+    right
+    exact ⟨(a, k, w), (mem_logSpec _ _ _).2 ⟨pre, p, mid, rfl, he⟩, rfl⟩
+  have hov : a ∈ (applyBlock ((pre ++ p :: mid).foldl applyBlock {}) q).overlap := by
+    rw [(applyBlock_spec _ q _ hinv hpre hstep).2.2.2.2.1, mem_unionInt]
+    right
+    simp only [List.mem_filter, List.contains_eq_mem, decide_eq_true_eq]
+    exact ⟨hq, hdom⟩
+  have hfin : a ∈ (placeAll (order ps)).overlap := by
+    unfold placeAll
+    rw [hsplit2, List.foldl_append, List.foldl_cons]
+    exact foldl_overlap_mono post _ a hov
+  unfold finish
+  simp only [Bool.not_eq_true', List.isEmpty_eq_false_iff]
+  exact List.ne_nil_of_mem hfin
+
+/-! ## the matcher: reference answer -/
+
+/-- `placements_exact`: the reference matcher returns exactly the maps of the nodes of `block_from`
+into the molecule that are injective, satisfy `_old_atomname_match` on every node, and map bonds to
+bonds and non-bonds to non-bonds (induced) with agreeing "both ends in the same residue" flag
+(`edge_matcher`); each once.  The code's matcher (networkx VF2) is compared with it as a set. -/
+theorem placements_exact (mol : List MNode) (medges : List (Int × Int)) (pat : List MNode)
+    (pedges : List (Int × Int)) (hp : (pat.map (·.key)).Nodup) (hm : (mol.map (·.key)).Nodup) :
+    (∀ f, f ∈ refMatches mol medges pat pedges ↔
+        f.map Prod.fst = pat.map (·.key)
+        ∧ Iso.IsIndIsoP (toGraph mol medges) (toGraph pat pedges) (nodePred mol pat) (Iso.Map.toFun f))
+    ∧ (refMatches mol medges pat pedges).Nodup := by
+  have hk : (toGraph pat pedges).keys = pat.map (·.key) := by simp [toGraph, Iso.Graph.keys]
+  have hk2 : (toGraph mol medges).keys = mol.map (·.key) := by simp [toGraph, Iso.Graph.keys]
+  refine ⟨?_, Iso.allIsosP_nodup _ _ _ (by rw [hk2]; exact hm)⟩
+  intro f
+  unfold refMatches
+  rw [Iso.mem_allIsosP_iff _ _ _ (by rw [hk]; exact hp), hk]
 
 end C01
